@@ -4,6 +4,7 @@
 package batch
 
 import (
+	"crypto/sha256"
 	"encoding/hex"
 	"encoding/json"
 	"fmt"
@@ -26,6 +27,7 @@ type ScriptSpec struct {
 	Ending    string   `json:"ending"`
 	Marks     []int    `json:"marks"` // defer marks that are registered before the script ends
 	Entries   []string `json:"entries"`
+	Contents  []string `json:"entry_contents"` // parallel to Entries (archive order; a later entry of the same path wins)
 	Jobs      int      `json:"jobs"`
 }
 
@@ -140,6 +142,11 @@ func (c *Collector) Params() testscript.Params {
 				filepath.Walk(work, func(pth string, info os.FileInfo, err error) error {
 					if err == nil && pth != work {
 						rel, _ := filepath.Rel(work, pth)
+						if info.Mode().IsRegular() {
+							// files are listed with their content: "exactly the files of its archive"
+							b, _ := os.ReadFile(pth)
+							rel += "=" + TreeSum(b)
+						}
 						l = append(l, rel)
 					}
 					return nil
@@ -287,3 +294,9 @@ var _ = filepath.Join
 var _ = hex.EncodeToString
 var _ = fmt.Sprint
 var _ = strings.TrimSpace
+
+// TreeSum is how snaptree lists a file's content: length and the first bytes of its SHA-256.
+func TreeSum(b []byte) string {
+	h := sha256.Sum256(b)
+	return fmt.Sprintf("%d:%x", len(b), h[:6])
+}
